@@ -79,7 +79,7 @@ static std::vector<Op> buildAlphabet(const std::string& name, Limits& L, const s
         A.push_back(opReload());
     } else if (name == "params") {  // C09: add / replace / lock / unlock over existing and new groups
         L.maxFrames = 1; L.maxPoints = 1; L.maxChans = 1; L.maxGroups = 5; L.maxParamsPerGroup = 12;
-        std::vector<std::string> vals = thorough ? std::vector<std::string>{"i7", "i22", "ie", "i20", "f23", "s2", "s22", "s0", "se", "i321", "i11", "sctl"} : std::vector<std::string>{"i7", "i22", "i20", "f23", "s2", "se", "i11"};
+        std::vector<std::string> vals = thorough ? std::vector<std::string>{"i7", "i22", "ie", "i20", "f23", "s2", "s22", "s0", "se", "i321", "i11", "sctl", "fz+", "fz-"} : std::vector<std::string>{"i7", "i22", "i20", "f23", "s2", "se", "i11", "fz+", "fz-"};
         for (auto g : {"POINT", "NEWG", "G2"}) for (auto n : {"X", "Y"}) for (auto& v : vals) A.push_back(opParam(g, n, pv(v), "d0", false, L));
         A.push_back(opParam("ANALOG", "X", pv("s22"), "d20", true, L)); A.push_back(opParam("NEWG", "X", pv("i7"), "d20", true, L)); A.push_back(opParam("POINT", "UNITS", pv("s1"), "d1", false, L));
         A.push_back(opParam("newg", "x", pv("f1"), "d1", false, L));
